@@ -8,7 +8,7 @@ SEED=$(cd "$1" && pwd); PID=$2; TIER=${3:-quick}
 WT=/tmp/try-$PID-$$
 git -C /repo worktree add -q "$WT" HEAD || exit 2
 cd "$WT"
-if ! git apply "$SEED/patch.diff"; then echo "PATCH DOES NOT APPLY"; git -C /repo worktree remove --force "$WT"; exit 2; fi
+if ! git apply "$SEED/patch.diff" 2>/dev/null && ! git apply -3 "$SEED/patch.diff"; then echo "PATCH DOES NOT APPLY"; git -C /repo worktree remove --force "$WT"; exit 2; fi
 echo "== patch: $(git diff --stat -- bert_e | tail -1)"
 cp -r "$SEED/demo" "$WT/demo"
 DEMO=$(ls demo/*.py 2>/dev/null | head -1)
